@@ -96,6 +96,81 @@ def _f15(vio):
     return vio.get("kind") == "process-death" and "is_subrange_equal" in _report(vio)
 
 
+def _layouts(vio):
+    case = vio.get("case") or {}
+    out = [case["layout"]] if isinstance(case.get("layout"), dict) else []
+    for op in case.get("ops", []) or []:
+        out.extend(op.get("others", []) or [])
+    return out
+
+
+def _has_zero_field_record(vio):
+    from vlib import model
+    for d in _layouts(vio):
+        for _p, n in model.walk(d):
+            if n["c"] == "RecordArray" and not n["contents"]:
+                return True
+    return False
+
+
+def _has_categorical(vio, with_empty_string=False):
+    from vlib import model
+    for d in _layouts(vio):
+        for _p, n in model.walk(d):
+            if model.param(n, "__array__") == "categorical":
+                if not with_empty_string:
+                    return True
+                ct = n["content"]
+                try:
+                    if model.param(ct, "__array__") == "string" and "" in model.value(ct):
+                        return True
+                except Exception:
+                    pass
+    return False
+
+
+@mechanism("F17-bare-char-result")
+def _f17(vio):
+    det = vio.get("detail") or {}
+    msg = str(det.get("validityerror", ""))
+    return vio.get("kind") == "invalid-result" and (
+        '"char\\" must be directly inside' in repr(msg) or '"char" must be directly inside' in msg or
+        '"byte" must be directly inside' in msg or 'must directly contain a node with __array__' in msg)
+
+
+@mechanism("F18-categorical-kept")
+def _f18(vio):
+    det = vio.get("detail") or {}
+    msg = str(det.get("validityerror", ""))
+    return vio.get("kind") == "invalid-result" and "requires contents to be unique" in msg and _has_categorical(vio)
+
+
+@mechanism("F6-categorical-empty-string")
+def _f6(vio):
+    det = vio.get("detail") or {}
+    msg = str(det.get("validityerror", ""))
+    return vio.get("kind") == "valid-array-rejected" and "requires contents to be unique" in msg and \
+        _has_categorical(vio, with_empty_string=True)
+
+
+@mechanism("F20-zero-field-record-length")
+def _f20(vio):
+    det = vio.get("detail") or {}
+    msg = str(det.get("validityerror", "")) + str(det.get("model", ""))
+    return vio.get("kind") == "invalid-result" and _has_zero_field_record(vio) and \
+        ("len(content)" in msg or "len(recordarray)" in msg or "< length" in msg)
+
+
+@mechanism("F21-sort-through-records")
+def _f21(vio):
+    from vlib import model
+    det = vio.get("detail") or {}
+    chain = det.get("chain") or []
+    if vio.get("kind") != "invalid-result" or not chain or chain[-1] not in ("sort", "argsort"):
+        return False
+    return any(n["c"] == "RecordArray" for d in _layouts(vio) for _p, n in model.walk(d))
+
+
 @mechanism("F10-reduce-nonlocal")
 def _f10(vio):
     rep = _report(vio)
